@@ -23,10 +23,29 @@ def field : VNode → Option String | mk _ _ _ f _ => f
 def kids : VNode → List VNode | mk _ _ _ _ ks => ks
 end VNode
 
+/-- The context a rule is matched in.  `field`/`alias` are the innermost enclosing `FIELD`/`ALIAS`
+of the current rule body (inner wins, as `flatten_grammar` does).  `fField`/`fAlias` are *forced*
+values: when an inlined rule is substituted, the field/alias of the replaced step is written over
+every step of the inserted production (`process_inlines`), so inside an inlined body the OUTER
+value wins. -/
 structure MCtx where
   field : Option String := none
   alias : Option (String × Bool) := none
+  fField : Option String := none
+  fAlias : Option (String × Bool) := none
+  /-- the field inherited from the slot of the enclosing hidden node (weakest: any `FIELD` of the
+  current production wins over it; the cursor looks at the nearest production first) -/
+  inh : Option String := none
   deriving DecidableEq, Repr, Inhabited
+
+def MCtx.prodField (c : MCtx) : Option String := match c.fField with | some f => some f | none => c.field
+def MCtx.effField (c : MCtx) : Option String := match c.prodField with | some f => some f | none => c.inh
+def MCtx.effAlias (c : MCtx) : Option (String × Bool) := match c.fAlias with | some a => some a | none => c.alias
+/-- entering a separate symbol (hidden rule, repeat auxiliary): its children inherit the field, nothing is forced -/
+def MCtx.enter (c : MCtx) : MCtx := { inh := c.effField }
+/-- substituting an inlined rule: field and alias the replaced step carries *in its own production*
+are forced onto the inserted steps; an inherited field stays inherited -/
+def MCtx.inlined (c : MCtx) : MCtx := { fField := c.prodField, fAlias := c.effAlias, inh := c.inh }
 
 /-- `token(…)` around a plain string is the anonymous token of that string; any other token body is a hidden auxiliary token. -/
 def tokenString : Rule → Option String
@@ -48,9 +67,13 @@ An inlined rule is always expanded in place (an alias around it is handed down t
 produces); any other rule under an alias becomes a node of the alias' kind. -/
 def nodeKind (g : Grammar) (c : MCtx) (x : String) : Option (String × Bool) :=
   if g.inline.contains x then none else
-  match c.alias with
+  match c.effAlias with
   | some a => some a
   | none => if g.hidden x then none else some (x, true)
+
+/-- the context the body of an in-place expanded rule is matched in -/
+def expandCtx (g : Grammar) (c : MCtx) (x : String) : MCtx :=
+  if g.inline.contains x then c.inlined else c.enter
 
 /-- Directly nested metadata wrappers are merged by the grammar reader (`metadata_with` in
 crates/generate/src/rules.rs): of two `FIELD`s with only other wrappers between them the OUTER one
@@ -70,9 +93,9 @@ def stripAlias : Rule → Rule
 
 /-- The leaf a visible terminal produces under a context. -/
 def leafFor (c : MCtx) (k : String) (named : Bool) : VNode :=
-  match c.alias with
-  | some (v, n) => .mk v n false c.field []
-  | none => .mk k named false c.field []
+  match c.effAlias with
+  | some (v, n) => .mk v n false c.effField []
+  | none => .mk k named false c.effField []
 
 def nonExtra (ks : List VNode) : List VNode := ks.filter fun k => !k.extra
 
@@ -80,36 +103,50 @@ mutual
   inductive Matches (g : Grammar) : Rule → MCtx → List VNode → Prop
     | blank {c} : Matches g .blank c []
     | str {c s} : Matches g (.str s) c [leafFor c s false]
-    | patHidden {c p} : c.alias = none → Matches g (.pat p) c []
-    | patAliased {c p v n} : c.alias = some (v, n) → Matches g (.pat p) c [.mk v n false c.field []]
+    | patHidden {c p} : c.effAlias = none → Matches g (.pat p) c []
+    | patAliased {c p v n} : c.effAlias = some (v, n) → Matches g (.pat p) c [.mk v n false c.effField []]
     | tokenStr {c a s} : tokenString a = some s → Matches g (.token a) c [leafFor c s false]
-    | tokenHidden {c a} : tokenString a = none → c.alias = none → Matches g (.token a) c []
-    | tokenAliased {c a v n} : tokenString a = none → c.alias = some (v, n) → Matches g (.token a) c [.mk v n false c.field []]
+    | tokenHidden {c a} : tokenString a = none → c.effAlias = none → Matches g (.token a) c []
+    | tokenAliased {c a v n} : tokenString a = none → c.effAlias = some (v, n) → Matches g (.token a) c [.mk v n false c.effField []]
     | immTokenStr {c a s} : tokenString a = some s → Matches g (.immToken a) c [leafFor c s false]
-    | immTokenHidden {c a} : tokenString a = none → c.alias = none → Matches g (.immToken a) c []
-    | immTokenAliased {c a v n} : tokenString a = none → c.alias = some (v, n) → Matches g (.immToken a) c [.mk v n false c.field []]
+    | immTokenHidden {c a} : tokenString a = none → c.effAlias = none → Matches g (.immToken a) c []
+    | immTokenAliased {c a v n} : tokenString a = none → c.effAlias = some (v, n) → Matches g (.immToken a) c [.mk v n false c.effField []]
     | seq {a b c xs ys} : Matches g a c xs → Matches g b c ys → Matches g (.seq a b) c (xs ++ ys)
     | choiceL {a b c xs} : Matches g a c xs → Matches g (.choice a b) c xs
     | choiceR {a b c xs} : Matches g b c xs → Matches g (.choice a b) c xs
     | repNil {a c} : Matches g (.rep a) c []
-    | repCons {a c xs ys} : Matches g a c xs → Matches g (.rep a) c ys → Matches g (.rep a) c (xs ++ ys)
-    | rep1 {a c xs ys} : Matches g a c xs → Matches g (.rep a) c ys → Matches g (.rep1 a) c (xs ++ ys)
+    /-- a repeat is a separate (auxiliary) symbol: its content inherits the field, nothing is forced -/
+    | repCons {a c xs ys} : c.effAlias = none → Matches g a c.enter xs → Matches g (.rep a) c ys →
+        Matches g (.rep a) c (xs ++ ys)
+    | rep1 {a c xs ys} : c.effAlias = none → Matches g a c.enter xs → Matches g (.rep a) c ys →
+        Matches g (.rep1 a) c (xs ++ ys)
+    /-- an alias around a repeat lands on the auxiliary symbol: ONE node of the alias' kind holding all iterations -/
+    | repAliased {a c v n kids} : c.effAlias = some (v, n) → NodeBody g (.rep a) kids →
+        Matches g (.rep a) c [.mk v n false c.effField kids]
+    | rep1Aliased {a c v n kids} : c.effAlias = some (v, n) → NodeBody g (.rep1 a) kids →
+        Matches g (.rep1 a) c [.mk v n false c.effField kids]
+    /-- …but a single iteration that is a single node is a unit reduction of the auxiliary symbol,
+    which the generator removes: that node itself then carries the alias -/
+    | repAliasedUnit {a c v n x} : c.effAlias = some (v, n) →
+        Matches g a { fField := c.effField, fAlias := some (v, n) } [x] → Matches g (.rep a) c [x]
+    | rep1AliasedUnit {a c v n x} : c.effAlias = some (v, n) →
+        Matches g a { fField := c.effField, fAlias := some (v, n) } [x] → Matches g (.rep1 a) c [x]
     | field {a c n xs} : Matches g (stripField a) { c with field := some n } xs → Matches g (.field n a) c xs
     | alias {a c v n xs} : Matches g (stripAlias a) { c with alias := some (v, n) } xs → Matches g (.alias v n a) c xs
     | prec {a c k v xs} : Matches g a c xs → Matches g (.prec k v a) c xs
     /-- a hidden rule is expanded in place; the enclosing field (and, for inlined rules, alias) is inherited -/
     | symHidden {c x b xs} : g.body x = some b → nodeKind g c x = none →
-        Matches g b c xs → Matches g (.sym x) c xs
+        Matches g b (expandCtx g c x) xs → Matches g (.sym x) c xs
     /-- a hidden rule that is itself a token produces no node -/
     | symHiddenToken {c x b} : g.body x = some b → nodeKind g c x = none → isTerminalBody b = true →
         Matches g (.sym x) c []
     /-- a visible (or aliased) rule produces one node whose children derive from the rule's body -/
     | symVisible {c x b k n kids} : g.body x = some b → nodeKind g c x = some (k, n) → NodeBody g b kids →
-        Matches g (.sym x) c [.mk k n false c.field kids]
+        Matches g (.sym x) c [.mk k n false c.effField kids]
     /-- an external token (no rule of that name): a leaf when visible, nothing when hidden -/
     | symExternalHidden {c x} : g.body x = none → nodeKind g c x = none → Matches g (.sym x) c []
     | symExternalVisible {c x k n} : g.body x = none → nodeKind g c x = some (k, n) →
-        Matches g (.sym x) c [.mk k n false c.field []]
+        Matches g (.sym x) c [.mk k n false c.effField []]
   inductive NodeBody (g : Grammar) : Rule → List VNode → Prop
     /-- the rule is a token: a leaf -/
     | token {b} : isTerminalBody b = true → NodeBody g b []
@@ -135,15 +172,15 @@ def matchLeaf (c : MCtx) (k : String) (named : Bool) (cs : List VNode) : List (L
   match cs with
   | .mk k' n' false f' [] :: rest =>
     let want := leafFor c k named
-    if k' = want.kind ∧ n' = want.named ∧ f' = c.field then [rest] else []
+    if k' = want.kind ∧ n' = want.named ∧ f' = c.effField then [rest] else []
   | _ => []
 
 def matchHiddenOrAliased (c : MCtx) (cs : List VNode) : List (List VNode) :=
-  match c.alias with
+  match c.effAlias with
   | none => [cs]
   | some (v, n) =>
     match cs with
-    | .mk k' n' false f' [] :: rest => if k' = v ∧ n' = n ∧ f' = c.field then [rest] else []
+    | .mk k' n' false f' [] :: rest => if k' = v ∧ n' = n ∧ f' = c.effField then [rest] else []
     | _ => []
 
 mutual
@@ -165,9 +202,33 @@ mutual
       | .seq a b => dedupLen ((matchRule g f a c cs).flatMap fun rem => matchRule g f b c rem)
       | .choice a b => dedupLen (matchRule g f a c cs ++ matchRule g f b c cs)
       | .rep a =>
-        cs :: dedupLen ((matchRule g f a c cs).flatMap fun rem =>
-          if rem.length < cs.length then matchRule g f (.rep a) c rem else [])
-      | .rep1 a => dedupLen ((matchRule g f a c cs).flatMap fun rem => matchRule g f (.rep a) c rem)
+        match c.effAlias with
+        | none =>
+          cs :: dedupLen ((matchRule g f a c.enter cs).flatMap fun rem =>
+            if rem.length < cs.length then matchRule g f (.rep a) c rem else [])
+        | some (v, n) =>
+          cs :: ((match cs with
+            | .mk k' n' false f' kids :: rest =>
+              if k' = v ∧ n' = n ∧ f' = c.effField ∧ checkBody g f (.rep a) kids = true then [rest] else []
+            | _ => []) ++
+           (match cs with
+            | x :: rest =>
+              if (matchRule g f a { fField := c.effField, fAlias := some (v, n) } [x]).any (fun rem => rem.isEmpty) = true
+              then [rest] else []
+            | [] => []))
+      | .rep1 a =>
+        match c.effAlias with
+        | none => dedupLen ((matchRule g f a c.enter cs).flatMap fun rem => matchRule g f (.rep a) c rem)
+        | some (v, n) =>
+          (match cs with
+          | .mk k' n' false f' kids :: rest =>
+            if k' = v ∧ n' = n ∧ f' = c.effField ∧ checkBody g f (.rep1 a) kids = true then [rest] else []
+          | _ => []) ++
+          (match cs with
+            | x :: rest =>
+              if (matchRule g f a { fField := c.effField, fAlias := some (v, n) } [x]).any (fun rem => rem.isEmpty) = true
+              then [rest] else []
+            | [] => [])
       | .field n a => matchRule g f (stripField a) { c with field := some n } cs
       | .alias v n a => matchRule g f (stripAlias a) { c with alias := some (v, n) } cs
       | .prec _ _ a => matchRule g f a c cs
@@ -178,16 +239,16 @@ mutual
           | none => [cs]
           | some (k, n) =>
             match cs with
-            | .mk k' n' false f' [] :: rest => if k' = k ∧ n' = n ∧ f' = c.field then [rest] else []
+            | .mk k' n' false f' [] :: rest => if k' = k ∧ n' = n ∧ f' = c.effField then [rest] else []
             | _ => []
         | some b =>
           match nodeKind g c x with
           | none =>
-            (if isTerminalBody b then [cs] else []) ++ matchRule g f b c cs
+            (if isTerminalBody b then [cs] else []) ++ matchRule g f b (expandCtx g c x) cs
           | some (k, n) =>
             match cs with
             | .mk k' n' false f' kids :: rest =>
-              if k' = k ∧ n' = n ∧ f' = c.field ∧ checkBody g f b kids = true then [rest] else []
+              if k' = k ∧ n' = n ∧ f' = c.effField ∧ checkBody g f b kids = true then [rest] else []
             | _ => []
       | .unknown _ => []
   def checkBody (g : Grammar) : Nat → Rule → List VNode → Bool
